@@ -188,6 +188,49 @@ def main(tier, replay=None):
     dis = run_lines(drv, ['dispatch'], shards=1)
     chk.cov['dispatch_on_this_cpu'] = dis[0]
 
+    # ---- the DISPATCHER raid_gen() itself, on large block sizes that are multiples of 64 but not powers of two (the variants
+    #      above are called directly with small sizes; raid_gen is the entry the tool uses, with blocks up to 16 MiB)
+    def lcg_blocks(seed, nd, size):
+        x = (seed * 6364136223846793005 + 1442695040888963407) & (2 ** 64 - 1)
+        out = []
+        for _ in range(nd):
+            b = bytearray(size)
+            for k in range(size):
+                x = (x * 6364136223846793005 + 1442695040888963407) & (2 ** 64 - 1)
+                b[k] = x >> 56
+            out.append(bytes(b))
+        return out
+
+    def fnv(b):
+        h = 1469598103934665603
+        for c in b:
+            h = ((h ^ c) * 1099511628211) & (2 ** 64 - 1)
+        return '%016x' % h
+    big_sizes = [32768 + 64, 40000] if tier == 'quick' else [32768 + 64, 40000, 65536 + 192, 98304 + 64, 131072 - 64, 262144 + 64]
+    big_nd = 2 if tier == 'quick' else 3
+    rcases = []
+    for size in big_sizes:
+        seed = rng.randrange(1, 2 ** 31)
+        data = lcg_blocks(seed, big_nd, size)
+        refs = {'c': [fnv(x) for x in gfref.gen('c', 6, data)], 'z': [fnv(x) for x in gfref.gen('z', 3, data)]}
+        for fam in ('disp', 'int8', 'ssse3', 'ssse3ext', 'avx2'):
+            for mode, np_ in [('c', n) for n in range(1, 7)] + [('z', 3)]:
+                rcases.append((fam, mode, big_nd, np_, size, seed, refs[mode][:np_]))
+    routs = run_lines(drv, ['rgen %s %s %d %d %d %d' % c[:6] for c in rcases])
+    rran = 0
+    for c, out in zip(rcases, routs):
+        if out == 'skip':
+            continue
+        rran += 1
+        exp = 'ok ' + ' '.join(c[6])
+        if out != exp:
+            chk.violation('rgen_%s_%s_np%d_size%d' % (c[0], c[1], c[3], c[4]),
+                          'raid_gen (dispatcher, family %s, mode %s, nd=%d, np=%d, block size %d) does not compute the GF(2^8) matrix product on the whole block: digests %s, expected %s'
+                          % (c[0], c[1], c[2], c[3], c[4], out, exp),
+                          {'driver': 'harness/c/raid_drv.c', 'case_line': 'rgen %s %s %d %d %d %d' % c[:6], 'data': '64-bit LCG stream of the seed (see raid_drv.c rgen)', 'got': out, 'expected_fnv64_per_parity': exp})
+    chk.cov['dispatcher_large_block_cases'] = rran
+    chk.cov['dispatcher_block_sizes'] = big_sizes
+
     # ---- verdict for broken obligations
     if ob['failed']:
         if not chk.violations:
